@@ -46,3 +46,18 @@ def run_real(script, payload, timeout=600):
         return json.loads(txt.split('@@RESULT@@')[-1])
     except ValueError:
         return {'replay_error': 'bad json', 'stdout': txt[-500:]}
+
+
+BUILD_COMMIT = '7809cbe'      # the commit the installed extension modules were built from
+
+
+def binary_matches_source(rel_paths):
+    """True when none of the given repository files differs from the commit the compiled extensions were built from
+    (the extensions cannot be rebuilt in this sandbox, so a replay through them says nothing about an edited .pyx)"""
+    if not os.path.isdir(os.path.join(REPO, '.git')):
+        return False
+    try:
+        r = subprocess.run(['git', '-C', REPO, 'diff', '--quiet', BUILD_COMMIT, '--'] + list(rel_paths), capture_output=True, timeout=60)
+        return r.returncode == 0
+    except Exception:
+        return False
